@@ -119,5 +119,68 @@ theorem extraction_consumes_helpers (es out : List Ev) (h : extractAll es = .ok 
   obtain ⟨_, _, r⟩ := extractAll_inv outInv_noF es out (fun _ _ _ _ _ => trivial) (fun _ _ _ => trivial) h
   exact r
 
+/-! ### the open finding: a strict prefix of a group is judged final
+
+Three ranks, receives posted just in time.  `g1chain` is the chain part of group `G1` (two single casts with
+their receives), `g1mcast` its multicast part (BC list, two XSEG sends, the multicast, two receives), starting
+after the chain part has ended.  `foreign` is one send of another group `G2` that starts in the gap. -/
+
+def mk (uid : Nat) (pid : Int) (tid : Int) (ts dur : Rat) (name : String) (cg : String) (typ : String)
+    (peer : Option String) : Ev :=
+  { ph := "X", pid := pid, tid := tid, ts := ts, dur := some dur, name := name, uid := uid,
+    args := some { peer := peer.map PeerVal.str, typ := some typ, collGroup := some cg, jobhash := some 7 } }
+
+def g1chain : List Ev := [
+  mk 1 0 1300 10 5 "SenRdmaSend_1 [sync=G1_a] DmaO" "G1" "SingleCast" (some "1"),
+  mk 2 1 1400 10 6 "SenRdmaReceive_2 [64B] [sync=G1_a] DmaI" "G1" "WDone Barrier" (some "0"),
+  mk 3 1 1300 20 5 "SenRdmaSend_3 [sync=G1_b] DmaO" "G1" "SingleCast" (some "2"),
+  mk 4 2 1400 20 6 "SenRdmaReceive_4 [64B] [sync=G1_b] DmaI" "G1" "WDone Barrier" (some "1")]
+
+def g1mcast : List Ev := [
+  mk 5 2 1300 40 2 "SenRdmaSend_5 - Set BcList [sync=G1_m] DmaO" "G1" "Set BCList" (some "0,1"),
+  mk 6 2 1301 41 2 "SenRdmaSend_5 - Xseg to rank 0 [sync=G1_m] DmaO" "G1" "MultiCast XSEG" (some "0"),
+  mk 7 2 1302 42 2 "SenRdmaSend_5 - Xseg to rank 1 [sync=G1_m] DmaO" "G1" "MultiCast XSEG" (some "1"),
+  mk 8 2 1300 43 6 "SenRdmaSend_5 Data [sync=G1_m] DmaO" "G1" "MultiCast" none,
+  mk 9 0 1400 40 10 "SenRdmaReceive_6 [64B] [sync=G1_m] DmaI" "G1" "WDone Barrier" (some "2"),
+  mk 10 1 1400 40 11 "SenRdmaReceive_7 [64B] [sync=G1_m] DmaI" "G1" "WDone Barrier" (some "2")]
+
+def foreign : List Ev := [
+  mk 11 0 1300 30 2 "SenRdmaSend_8 [sync=G2_a] DmaO" "G2" "SingleCast" (some "1")]
+
+def g2rest : List Ev := [
+  mk 12 1 1400 60 2 "SenRdmaReceive_9 [64B] [sync=G2_a] DmaI" "G2" "WDone Barrier" (some "0")]
+
+/-- the twelve-event history, in global `ts` order: chain part of G1, one event of G2, multicast part of G1, rest of G2 -/
+def interleaved : List Ev := g1chain ++ foreign ++ g1mcast ++ g2rest
+/-- the same twelve events with G2 entirely after G1 -/
+def backToBack : List Ev := g1chain ++ g1mcast ++ foreign ++ g2rest
+
+/-- **Witness of the open finding `flow-prefix-final` (the unrestricted completeness clause is false of
+the current code).**  The ten events of `G1` are a complete chain group — judged final as a whole, four sends
+each with a DONE receive on its peer; back to back with `G2` all four arrows are produced.  But the chain
+part alone, a *strict prefix*, is judged final as well (≥ 2 closed sync groups), so when the single event of
+`G2` arrives in the gap before the multicast part, the prefix is emitted and popped; the multicast part
+then forms a group with one sync group, which can never be final, and is dropped at drain: both
+multicast-segment arrows are lost, while the run itself succeeds. -/
+theorem prefix_final_loses_multicast :
+    detectFinal (helperQueue (g1chain ++ g1mcast)) = true ∧
+    (matched (helperQueue (g1chain ++ g1mcast)) (helperQueue (g1chain ++ g1mcast))).length = 4 ∧
+    detectFinal (helperQueue g1chain) = true ∧
+    sNames (runFlow backToBack) = some ["G1_a", "G1_b", "G1_m", "G1_m"] ∧
+    sNames (runFlow interleaved) = some ["G1_a", "G1_b"] := by
+  decide +kernel
+
+/-! ### non-vacuity: the hypotheses of the theorems hold on a history that produces arrows -/
+
+example : NoFlowIn backToBack := by unfold NoFlowIn; decide +kernel
+example : NoHelperKeysIn backToBack := by unfold NoHelperKeysIn; decide +kernel
+/-- the run succeeds and exports the 12 slices, 4 `s` and 4 `f` events -/
+example : (okOf (runFlow backToBack)).map (fun out =>
+    ((out.filter (fun e => e.ph = "s")).length, (out.filter (fun e => e.ph = "f")).length, out.length)) =
+    some (4, 4, 20) := by decide +kernel
+/-- a run that raises: a sync-tagged slice without `jobhash` (KeyError) — the theorems speak about `.ok` runs only -/
+example : errOf (runFlow [{ (mk 1 0 1 10 5 "S_1 [sync=a] DmaO" "G" "SingleCast" (some "1")) with
+    args := some { peer := some (.str "1"), typ := some "SingleCast" } }]) = some .key := by decide +kernel
+
 end C09
 end AiuVerif
